@@ -335,6 +335,8 @@ class Report:
         ev = dict(property_id=self.prop, tier=self.tier, seed=SEED, level=self.level, coverage=cov,
                   assumptions=self.assumptions, wall_s=round(wall, 2), violations=len(self.violations))
         evdir = os.environ.get('VERIF_EVIDENCE_DIR') or os.path.join(VERIF, 'evidence')
+        if os.environ.get('VERIF_PARTIAL'):          # a run restricted with --only / --caps is not evidence for the property
+            evdir = os.path.join(WORK, 'partial_evidence')
         os.makedirs(evdir, exist_ok=True)
         with open(os.path.join(evdir, self.prop + '.json'), 'w') as f:
             json.dump(ev, f, indent=1, default=str)
